@@ -368,12 +368,28 @@ def find_check_cache(context):
         context.build['find_dirs'].update(seen_dirs)
 
     if not regenerate:
-        # We don't want to regenerate. To make sure the build backend is happy,
-        # update the modification time of all the output files.
+        # We don't want to regenerate. However, the set of directories we
+        # searched can change even when the results don't (e.g. a new, empty
+        # subdirectory), so keep the list of directories that trigger
+        # regeneration up to date.
+        _write_find_deps(context.env, context.build['find_dirs'])
+
+        # To make sure the build backend is happy, update the modification time
+        # of all the output files.
         for i in regen_files.outputs:
             if _path.exists(i, context.env.base_dirs):
                 _path.touch(i, context.env.base_dirs)
         raise AbortConfigure()
+
+
+def _write_find_deps(env, find_dirs):
+    if not find_dirs:
+        return
+    if env.backend == 'make':
+        write_depfile(env, Path(depfile_name), make.filepath, find_dirs,
+                      makeify=True)
+    elif env.backend == 'ninja':
+        write_depfile(env, Path(depfile_name), ninja.filepath, find_dirs)
 
 
 @make.post_rules_hook
